@@ -76,6 +76,15 @@ def run(repo, rep, tier):
                   construct="side-door:" + what, where=L.where(ve, n.lineno),
                   detail="%s is built from the node before ON_ERROR is "
                          "applied (line %s)" % (src(n)[:60], wraps))
+    from . import c10, c11, c18
+    # the output around a handled failure survives: blocks of an enclosing
+    # translation are initialised even if the failure skipped them
+    L.borrow(repo, rep, "R13.1", "C10", c10._translate, ("block-init",))
+    # error.lineno / error.offset are read from the failing expression's
+    # token: stripping it keeps the position
+    L.borrow(repo, rep, "R13.5", "C11", c11._algebra, ("strip", "lstrip"))
+    # a fallback spelled data-tal-on-error is an ordinary statement
+    L.borrow(repo, rep, "R13.3", "C18", c18._keyed, ("convert-first",))
     from .c01 import content_node_total
     okc, detail = content_node_total(repo)
     rep.check(okc, "R13.3", "chameleon.zpt.program.MacroProgram."
